@@ -1,6 +1,6 @@
 ----------------------------- MODULE MigrateGen -----------------------------
-(* GEN for C37: a random walk over PithosMC (TLC -simulate, PithosGen's state-aware     *)
-(* argument choice) builds the SOURCE state; at GenDepth calls the program is printed    *)
+(* GEN for C37: a random walk over PithosMC (TLC -simulate, state-aware argument         *)
+(* choice) builds the SOURCE state; at GenDepth calls the program is printed    *)
 (* together with destination programs, one per destination kind, chosen with knowledge   *)
 (* of the source state reached:                                                          *)
 (*   empty      no bucket at all                                                          *)
@@ -9,13 +9,88 @@
 (*   other      a bucket that is NOT a source bucket exists and holds an object           *)
 (*   mixed      one source bucket non-empty, another bucket present                       *)
 (* No expected results.                                                                   *)
-EXTENDS Migrate, PithosGen
+EXTENDS Migrate, Json
+
+CONSTANT GenDepth
+
+\* ---------------------------------------------------------------- generator core
+\* Self-contained (PithosMC only): random, state-aware argument choice in the style of
+\* PithosGen.  Every call is built from a TEMPLATE taken from PithosMC's own alphabet
+\* Calls(..) for that operation, so it always has exactly the fields Apply expects; the fields
+\* named here are overridden, any other field keeps a value the configuration allows.
+R(s) == RandomElement(s)
+RW(q) == q[RandomElement(1..Len(q))]     \* weighted choice: q lists values with multiplicity
+GenFresh == InitState(Buckets, Keys, Deviations)
+TemplateOf(op) == IF \E x \in Calls(GenFresh) : x.op = op
+                  THEN CHOOSE x \in {y \in Calls(GenFresh) : y.op = op} : TRUE ELSE [op |-> op]
+\* constants: evaluated once
+TCreateBucket == TemplateOf("CreateBucket")
+TPutVersioning == TemplateOf("PutVersioning")
+TPutObject == TemplateOf("PutObject")
+TDeleteObject == TemplateOf("DeleteObject")
+TCopyObject == TemplateOf("CopyObject")
+TAppendObject == TemplateOf("AppendObject")
+TCreateUpload == TemplateOf("CreateUpload")
+TUploadPart == TemplateOf("UploadPart")
+TUploadPartCopy == TemplateOf("UploadPartCopy")
+TCompleteUpload == TemplateOf("CompleteUpload")
+TPutTagging == TemplateOf("PutTagging")
+TTransition == TemplateOf("Transition")
+
+\* state-aware pickers: mostly hit things that exist, sometimes things that do not
+Live(St) == {b \in Buckets : St.bver[b] # "Absent"}
+PB(St) == IF Live(St) # {} /\ R(1..10) # 1 THEN R(Live(St)) ELSE R(Buckets)
+KeysWith(St, b) == {k \in Keys : St.objs[b][k] # <<>>}
+PK(St, b) == IF KeysWith(St, b) # {} /\ R(1..4) # 1 THEN R(KeysWith(St, b)) ELSE R(Keys)
+PV(St, b, k) ==
+  LET vs == St.objs[b][k] IN
+  IF R(1..5) <= 2 THEN -1
+  ELSE IF vs # <<>> /\ R(1..8) # 1 THEN vs[R(1..Len(vs))].vid
+  ELSE R(0..St.nv)
+PU(St) == IF St.ups # <<>> /\ R(1..8) # 1 THEN St.ups[R(1..Len(St.ups))].uid ELSE R(Uids(St))
+
+RandCall(op, St) ==
+  LET b == PB(St)
+      k == PK(St, b)
+      sb == PB(St)
+      sk == PK(St, sb)
+      u == PU(St)
+      ub == IF UpIdx(St, u) # 0 /\ R(1..8) # 1 THEN St.ups[UpIdx(St, u)].b ELSE b
+      uk == IF UpIdx(St, u) # 0 /\ R(1..8) # 1 THEN St.ups[UpIdx(St, u)].k ELSE k
+  IN
+  CASE op = "CreateBucket"   -> [TCreateBucket EXCEPT !.b = R(Buckets)]
+    [] op = "PutVersioning"  -> [TPutVersioning EXCEPT !.b = b, !.status = R({"Enabled", "Suspended"})]
+    [] op = "PutObject"      -> [TPutObject EXCEPT !.b = b, !.k = R(Keys), !.blob = R(Blobs), !.ctype = R(CTypes),
+                                                   !.meta = R(MetaSets), !.tags = R(TagSets), !.class = R(Classes), !.cond = "none"]
+    [] op = "DeleteObject"   -> [TDeleteObject EXCEPT !.b = b, !.k = k, !.vid = PV(St, b, k), !.cond = "none"]
+    [] op = "CopyObject"     -> [TCopyObject EXCEPT !.sb = sb, !.sk = sk, !.svid = PV(St, sb, sk), !.b = b, !.k = R(Keys),
+                                                    !.mdir = R({"COPY", "REPLACE"}), !.tdir = R({"COPY", "REPLACE"}),
+                                                    !.ctype = R(CTypes), !.meta = R(MetaSets), !.tags = R(TagSets), !.class = R(Classes)]
+    [] op = "AppendObject"   -> [TAppendObject EXCEPT !.b = b, !.k = k, !.blob = R(Blobs),
+                                                      !.off = RW(<<"none", "none", "none", "match", "match", "mismatch">>)]
+    [] op = "CreateUpload"   -> [TCreateUpload EXCEPT !.b = b, !.k = R(Keys), !.ctype = R(CTypes), !.meta = R(MetaSets),
+                                                      !.tags = R(TagSets), !.class = R(Classes)]
+    [] op = "UploadPart"     -> [TUploadPart EXCEPT !.b = ub, !.k = uk, !.u = u, !.n = R(1..MaxParts), !.blob = R(Blobs)]
+    [] op = "UploadPartCopy" -> [TUploadPartCopy EXCEPT !.sb = sb, !.sk = sk, !.svid = PV(St, sb, sk), !.b = ub, !.k = uk,
+                                                        !.u = u, !.n = R(1..MaxParts)]
+    [] op = "CompleteUpload" -> [TCompleteUpload EXCEPT !.b = ub, !.k = uk, !.u = u, !.cond = "none",
+                                   !.manifest = RW(<<"none", "none", "all", "all", "all", "all", "missing", "reversed", "badetag", "extra">>)]
+    [] op = "PutTagging"     -> [TPutTagging EXCEPT !.b = b, !.k = k, !.vid = PV(St, b, k), !.tags = R(TagSets)]
+    [] op = "Transition"     -> [TTransition EXCEPT !.b = b, !.k = k, !.vid = PV(St, b, k), !.class = R(Classes \ {None}),
+                                                    !.cond = "none"]
+
+First == [TCreateBucket EXCEPT !.b = "b1"]
+GenInit == /\ S = Apply(GenFresh, First).s
+           /\ res = NoRes
+           /\ hist = <<First>>
+Succeeds(c) == Apply(S, c).r.err = ""
+\* ------------------------------------------------------------ end of generator core
 
 CONSTANT NDst          \* number of destination kinds emitted per program (a prefix of AllKinds)
 AllKinds == <<"empty", "nonempty", "emptysame", "other", "mixed">>
 DstKinds == SubSeq(AllKinds, 1, NDst)
 
-Create(b) == [op |-> "CreateBucket", b |-> b]
+Create(b) == [TCreateBucket EXCEPT !.b = b]
 RandPut(b) == [PutTemplate EXCEPT !.b = b, !.k = R(Keys), !.blob = R(Blobs), !.ctype = R(CTypes), !.meta = R(MetaSets),
                                    !.tags = R(TagSets), !.class = R(Classes)]
 DstProg(kind, St) ==
@@ -36,11 +111,10 @@ MOpW == <<"CreateBucket", "CreateBucket", "PutVersioning", "PutVersioning", "Put
           "PutObject", "DeleteObject", "DeleteObject", "CopyObject", "CopyObject", "AppendObject", "AppendObject",
           "CreateUpload", "UploadPart", "UploadPart", "CompleteUpload", "CompleteUpload", "PutTagging">>
 MOpWSel == SelectSeq(MOpW, LAMBDA o : o \in Ops)
-Succeeds(c) == Apply(S, c).r.err = ""
 \* now and then: delete (without version id) a current object of a versioned bucket, so that
 \* delete markers and noncurrent versions - which must NOT be migrated - occur in most batches
 VersionedCur(St) == {o \in Buckets \X Keys : St.bver[o[1]] \in {"Enabled", "Suspended"} /\ HasCurrent(St.objs[o[1]][o[2]])}
-MarkerCall(St) == LET o == R(VersionedCur(St)) IN [op |-> "DeleteObject", b |-> o[1], k |-> o[2], vid |-> -1, cond |-> "none"]
+MarkerCall(St) == LET o == R(VersionedCur(St)) IN [TDeleteObject EXCEPT !.b = o[1], !.k = o[2], !.vid = -1, !.cond = "none"]
 MGenNext == LET c1 == IF VersionedCur(S) # {} /\ R(1..6) = 1 THEN MarkerCall(S) ELSE RandCall(RW(MOpWSel), S)
                 c2 == RandCall(RW(MOpWSel), S)
                 c3 == RandCall(RW(MOpWSel), S)
